@@ -166,8 +166,13 @@ func (p *provider) CreateScope(ctx context.Context) (Scope, error) {
 		return nil, err
 	}
 
-	// Track scope
+	// Track scope (the provider may have been closed in the meantime)
 	p.scopesMu.Lock()
+	if p.scopes == nil {
+		p.scopesMu.Unlock()
+		_ = s.Close()
+		return nil, ErrProviderDisposed
+	}
 	p.scopes[s] = struct{}{}
 	p.scopesMu.Unlock()
 
@@ -262,9 +267,9 @@ func (p *provider) getSingleton(key instanceKey) (any, bool) {
 // setSingleton stores a singleton instance using lock-free sync.Map.
 // It also tracks the instance if it implements the Disposable interface
 // for proper cleanup during provider disposal.
-func (p *provider) setSingleton(key instanceKey, instance any) {
+func (p *provider) setSingleton(key instanceKey, instance any) error {
 	if instance == nil {
-		return
+		return nil
 	}
 
 	p.singletons.Store(key, instance)
@@ -277,9 +282,17 @@ func (p *provider) setSingleton(key instanceKey, instance any) {
 	// Track if disposable
 	if d, ok := instance.(Disposable); ok {
 		p.disposablesMu.Lock()
+		if atomic.LoadInt32(&p.disposed) != 0 {
+			// Close may already have drained the list: dispose here instead
+			p.disposablesMu.Unlock()
+			_ = d.Close()
+			return ErrProviderDisposed
+		}
 		p.disposables = append(p.disposables, d)
 		p.disposablesMu.Unlock()
 	}
+
+	return nil
 }
 
 // findDescriptor finds a descriptor for the given service type and optional key.
